@@ -24,6 +24,7 @@ import (
 	"sort"
 	"strings"
 	"sync"
+	"sync/atomic"
 )
 
 // Seam names of lock parks (Parked.Name).
@@ -474,7 +475,16 @@ type Lockstep struct {
 	// its goroutines keep honouring the locks but are no longer scheduled by the driver. May be nil.
 	// Called on goroutines of the code under test: it must not draw from the tape.
 	Ended func(root string) bool
+	quiet atomic.Bool
 }
+
+// Quiet: from now on nobody parks at lock / held / yield seams (audit phases answer everything in
+// canonical order anyway); the locks themselves keep working.
+func (l *Lockstep) Quiet() { l.quiet.Store(true) }
+
+// ResetLockstep is set by package lockrt in a lockstep build: RunOne / RunTimed call it before every
+// run so that a world that does not use the runtime never meets the one a previous run installed.
+var ResetLockstep func()
 
 // DriverName is the lineage root of whatever the driver goroutine spawns through the code under test.
 const DriverName = "drv"
@@ -495,7 +505,7 @@ func NewLockstep(s *Sim, yields bool) *Lockstep {
 }
 
 func (l *Lockstep) park(g, site, kind string) bool {
-	if g == DriverName {
+	if g == DriverName || l.quiet.Load() {
 		return false // the driver itself must never wait for the driver
 	}
 	if l.Ended != nil && l.Ended(RootOf(g)) {
